@@ -340,6 +340,8 @@ impl ConvexCell<WithoutFaces> {
             let dx = cell.loc - ngb_loc;
             let dist = dx.length();
             assert!(dist.is_finite() && dist > 0.0, "Degenerate point set!");
+            #[cfg(feature = "verif")]
+            super::verif_hooks::on_candidate(cell.idx, idx, shift, dist, cell.safety_radius);
             if cell.safety_radius < dist {
                 return cell;
             }
@@ -379,6 +381,19 @@ impl ConvexCell<WithoutFaces> {
                     .iloc(self.clipping_planes[dual[2]].right_loc(self.idx, generators));
                 let v = simulation_boundary.iloc(p.right_loc(self.idx, generators));
                 clip = in_sphere_test_exact(&a, &b, &c, &d, &v);
+                #[cfg(feature = "verif")]
+                super::verif_hooks::on_exact(
+                    self.idx,
+                    [a, b, c, d, v],
+                    [
+                        self.loc,
+                        self.clipping_planes[dual[0]].right_loc(self.idx, generators),
+                        self.clipping_planes[dual[1]].right_loc(self.idx, generators),
+                        self.clipping_planes[dual[2]].right_loc(self.idx, generators),
+                        p.right_loc(self.idx, generators),
+                    ],
+                    clip,
+                );
             }
             if clip < 0. {
                 num_v -= 1;
